@@ -14,9 +14,29 @@
                    no_unknown     unknown fields have no JSON form              (cls unknown-fields)
                    no_lazy        K12: non-empty message below a lazily created intermediate (cls lazy-intermediate)
                    nan_ok         NaN other than float("nan") / NaN inside repeated or map  (cls nan-payload, nan-in-container)
-   All theorems are about to_dict(include_default_values=False) (the default); obj_eq is Message.__eq__, enc_obj is bytes(). *)
-From BP Require Import Base.Prelude Model.Types Model.Object Model.Eq Model.TimeCore Model.Encode Model.WellFormed Model.Json.
+   The theorems of the first part are about to_dict(include_default_values=False) (the default); obj_eq is Message.__eq__,
+   enc_obj is bytes().
+
+   Second part (theorems C04_incl_..., C04_repwrap_..., C04_general_...): include_default_values=True and REPEATED WRAPPER fields.
+     all_present sc m   (coq/Proofs/C04InclDef.v) every implicit-presence sub-message field (plain, not in a oneof), at every depth,
+                        holds a message whose _serialized_on_wire is True.  The extra condition of the BYTES half of the round trip
+                        through to_dict(include_default_values=True): the listed default `"sub": {...}` of an unset plain sub-message
+                        is read back by from_dict as a PRESENT sub-message, == m but encoded as `tag 00`
+                        (C04_incl_unset_submessage_refuted; cls incl-unset-submessage; the gnorm_obj of every value that violates
+                        it holds a present sub-message where m has none - the necessity is proved for the witness only).  It implies
+                        that Cls().to_dict(include_default_values=True) is never called, so no recursive class is entered.
+     defaults_reach sc m  Cls().to_dict(include_default_values=True) terminates for every unset plain sub-message field of m (the chain
+                        of plain sub-message classes below it is shorter than the model's fuel; false on a recursive class, where Python
+                        raises RecursionError: C04_incl_recursive_refuted).  It is all the == half of the round trip and C04_incl_dumps_total
+                        need (C04_incl_eq_rt); all_present implies it.
+     wfx_schema sc      (coq/Model/C04RepWrap.v) wf_schema that also admits `repeated google.protobuf.XxxValue` fields
+                        (List[...] with meta.proto_type = message and meta.wraps set; commit 09cc975)
+     goodx sc m         good with in_rangex: the elements of a repeated wrapper field are judged by meta.wraps
+                        (WellFormed.in_range judges them by meta.proto_type = message and rejects every non-empty list)
+     incl_ok incl sc m  negb incl || all_present sc m;   reach_ok incl sc m  negb incl || defaults_reach sc m *)
+From BP Require Import Base.Prelude Model.Types Model.Object Model.Eq Model.TimeCore Model.Encode Model.WellFormed Model.Json Model.C04RepWrap.
 From BP Require Import Proofs.C04Def Proofs.C04ScalarP Proofs.C04CalP Proofs.C04CalSweepP Proofs.C04ObjP Proofs.C04RtP4 Proofs.C04InstP Proofs.C04DumpsP Proofs.C04MainP Proofs.C04WitP.
+From BP Require Import Proofs.C04InclDef Proofs.C04InclBaseP Proofs.C04InclMainP Proofs.C04InclWitP.
 
 (* ---- the oracles inside the model, proved rather than assumed ---- *)
 Theorem C04_base64_inverse : forall bs, b64decode (b64encode bs) = Ok bs.
@@ -123,5 +143,204 @@ Example C04_nonvacuous :
   | Ok m' => obj_eq ex_sc m' ex_m = true /\ enc_obj ex_sc m' = enc_obj ex_sc ex_m /\
              match enc_obj ex_sc ex_m with Ok b => (70 <? Zlength b) = true | Err _ => False end
   | Err _ => False
+  end.
+Proof. vm_compute. repeat split; reflexivity. Qed.
+
+(* ====================================================================================================================== *)
+(* include_default_values = True                                                                                         *)
+(* ====================================================================================================================== *)
+
+(* ---- C04_incl_dict_rt: the dict path of to_dict(include_default_values=True), casing cs in {CAMEL, SNAKE}, BOTH forms:
+        Cls.from_dict(d) and Cls().from_dict(d) build the same message m', m' == m, bytes(m') = bytes(m).
+        Same hypotheses as C04_dict_rt plus all_present (needed: C04_incl_unset_submessage_refuted).  Unselected oneof
+        members are left out of d (commit 79f89e0), implicit-presence defaults are listed and read back as values that
+        are == the default and contribute no bytes, optional fields that are None are listed as null and skipped. ---- *)
+Theorem C04_incl_dict_rt : forall sc cs m,
+  wf_schema sc = true -> keys_ok cs sc = true -> good sc m = true -> all_present sc m = true ->
+  exists m', from_dict_cls sc (ocls m) (to_dict cs true sc m) = Ok m' /\
+             from_dict_inst sc (new sc (ocls m)) (to_dict cs true sc m) = Ok m' /\
+             obj_eq sc m' m = true /\ enc_obj sc m' = enc_obj sc m.
+Proof. exact incl_dict_rt. Qed.
+Print Assumptions C04_incl_dict_rt.
+
+(* ---- C04_incl_text_rt: the same through json.dumps / json.loads:
+        Cls.from_dict(json.loads(json.dumps(d))) and Cls().from_json(m.to_json(include_default_values=True)) ---- *)
+Theorem C04_incl_text_rt : forall sc cs m,
+  wf_schema sc = true -> keys_ok cs sc = true -> good sc m = true -> all_present sc m = true ->
+  exists m', json_rt_cls cs true sc m = Ok m' /\
+             json_rt_inst cs true sc m (new sc (ocls m)) = Ok m' /\
+             obj_eq sc m' m = true /\ enc_obj sc m' = enc_obj sc m.
+Proof. exact incl_text_rt. Qed.
+Print Assumptions C04_incl_text_rt.
+
+(* ---- C04_incl_eq_rt: the == half needs no all_present.  Whenever to_dict(m, include_default_values=True) exists
+        (defaults_reach: no recursive class is entered), from_dict of it - both forms, dict path (text = false) and JSON
+        text path (text = true) - builds a message that is == m; the listed default of an unset plain sub-message comes
+        back as a present message that is == Cls() (its bytes are the subject of C04_incl_unset_submessage_refuted) ---- *)
+Theorem C04_incl_eq_rt : forall sc cs (text : bool) m,
+  wf_schema sc = true -> keys_ok cs sc = true -> good sc m = true -> defaults_reach sc m = true ->
+  exists m', from_dict_cls sc (ocls m) (tr text (to_dict cs true sc m)) = Ok m' /\
+             from_dict_inst sc (new sc (ocls m)) (tr text (to_dict cs true sc m)) = Ok m' /\
+             obj_eq sc m' m = true.
+Proof. exact incl_eq_rt. Qed.
+Print Assumptions C04_incl_eq_rt.
+
+Theorem C04_incl_eq_text_rt : forall sc cs m,
+  wf_schema sc = true -> keys_ok cs sc = true -> good sc m = true -> defaults_reach sc m = true ->
+  exists m', json_rt_cls cs true sc m = Ok m' /\
+             json_rt_inst cs true sc m (new sc (ocls m)) = Ok m' /\
+             obj_eq sc m' m = true.
+Proof. exact incl_eq_text_rt. Qed.
+Print Assumptions C04_incl_eq_text_rt.
+
+(* ---- C04_incl_dumps_total: to_dict(m, include_default_values=True) is json.dumps-serialisable whenever the defaults
+        of its unset plain sub-messages can be materialised at all (defaults_reach; no all_present, no json_supported,
+        no keys_ok) ---- *)
+Theorem C04_incl_dumps_total : forall sc cs m,
+  wf_schema sc = true -> in_range sc m = true -> oneof_ok sc m = true -> defaults_reach sc m = true ->
+  dumpsable (to_dict cs true sc m) = true.
+Proof. exact incl_dumps_total. Qed.
+Print Assumptions C04_incl_dumps_total.
+
+(* ---- without all_present the bytes differ: Outer(x=3) with the plain sub-message `sub` unset.
+        to_dict(include_default_values=True) = {"x": 3, "sub": {"y": 0, ...}, ...}; from_dict gives a message that is == m
+        but whose `sub` is present: 08 03 12 00 instead of 08 03 (replayed on the implementation) ---- *)
+Theorem C04_incl_unset_submessage_refuted :
+  schema_ok exi_sc = true /\ good exi_sc wit_unset_sub = true /\ defaults_reach exi_sc wit_unset_sub = true /\
+  all_present exi_sc wit_unset_sub = false /\
+  enc_obj exi_sc wit_unset_sub = Ok [x08; x03] /\
+  match rt_class_incl CAMEL false exi_sc wit_unset_sub with
+  | Ok m' => obj_eq exi_sc m' wit_unset_sub = true /\ enc_obj exi_sc m' = Ok [x08; x03; x12; x00]
+  | Err _ => False
+  end.
+Proof. exact incl_unset_submessage_refuted. Qed.
+Print Assumptions C04_incl_unset_submessage_refuted.
+
+(* ---- without defaults_reach there is no dict at all: a class with a plain field of its own type (RecursionError in
+        Python; the model's fuel runs out and leaves a PLACEHOLDER in the dict) ---- *)
+Theorem C04_incl_recursive_refuted :
+  schema_ok ex_sc = true /\ good ex_sc (with_x 3 true []) = true /\
+  defaults_reach ex_sc (with_x 3 true []) = false /\
+  dumpsable (to_dict CAMEL true ex_sc (with_x 3 true [])) = false /\
+  match rt_class_incl CAMEL false ex_sc (with_x 3 true []) with Ok _ => False | Err _ => True end.
+Proof. exact incl_recursive_refuted. Qed.
+Print Assumptions C04_incl_recursive_refuted.
+
+(* ====================================================================================================================== *)
+(* repeated wrapper fields (wfx_schema / goodx), and everything at once                                                   *)
+(* ====================================================================================================================== *)
+
+(* the extension is conservative: a wf_schema is a wfx_schema, and on a wf_schema goodx is good *)
+Theorem C04_wfx_extends_wf : forall sc, wf_schema sc = true ->
+  wfx_schema sc = true /\ forall m, in_rangex sc m = in_range sc m.
+Proof. intros sc W. split; [exact (wf_wfx_schema sc W)|intros m; exact (in_rangex_in_range sc m W)]. Qed.
+Print Assumptions C04_wfx_extends_wf.
+
+(* ---- C04_repwrap_dict_rt: C04_dict_rt for schemas with repeated wrapper fields ---- *)
+Theorem C04_repwrap_dict_rt : forall sc cs m,
+  wfx_schema sc = true -> keys_ok cs sc = true -> goodx sc m = true ->
+  exists m', from_dict_cls sc (ocls m) (to_dict cs false sc m) = Ok m' /\
+             from_dict_inst sc (new sc (ocls m)) (to_dict cs false sc m) = Ok m' /\
+             obj_eq sc m' m = true /\ enc_obj sc m' = enc_obj sc m.
+Proof. exact repwrap_dict_rt. Qed.
+Print Assumptions C04_repwrap_dict_rt.
+
+Theorem C04_repwrap_text_rt : forall sc cs m,
+  wfx_schema sc = true -> keys_ok cs sc = true -> goodx sc m = true ->
+  exists m', json_rt_cls cs false sc m = Ok m' /\
+             json_rt_inst cs false sc m (new sc (ocls m)) = Ok m' /\
+             obj_eq sc m' m = true /\ enc_obj sc m' = enc_obj sc m.
+Proof. exact repwrap_text_rt. Qed.
+Print Assumptions C04_repwrap_text_rt.
+
+Theorem C04_repwrap_dumps_total : forall sc cs m,
+  wfx_schema sc = true -> in_rangex sc m = true -> oneof_ok sc m = true -> dumpsable (to_dict cs false sc m) = true.
+Proof. exact repwrap_dumps_total. Qed.
+Print Assumptions C04_repwrap_dumps_total.
+
+(* ---- the general statements: any flag incl, schemas with repeated wrapper fields, dict path (text = false) and JSON
+        text path (text = true), both forms; the normal form the round trip builds is gnorm_obj incl sc m ---- *)
+Theorem C04_general_from_to_dict_norm : forall sc cs incl (text : bool) m,
+  wfx_schema sc = true -> keys_ok cs sc = true -> goodx sc m = true -> reach_ok incl sc m = true ->
+  from_dict_cls sc (ocls m) (tr text (to_dict cs incl sc m)) = Ok (gnorm_obj incl sc m).
+Proof. exact norm_formG. Qed.
+Print Assumptions C04_general_from_to_dict_norm.
+
+Theorem C04_general_eq_rt : forall sc cs incl (text : bool) m,
+  wfx_schema sc = true -> keys_ok cs sc = true -> goodx sc m = true -> reach_ok incl sc m = true ->
+  exists m', from_dict_cls sc (ocls m) (tr text (to_dict cs incl sc m)) = Ok m' /\
+             from_dict_inst sc (new sc (ocls m)) (tr text (to_dict cs incl sc m)) = Ok m' /\
+             obj_eq sc m' m = true.
+Proof. exact eq_formsG. Qed.
+Print Assumptions C04_general_eq_rt.
+
+Theorem C04_general_rt : forall sc cs incl (text : bool) m,
+  wfx_schema sc = true -> keys_ok cs sc = true -> goodx sc m = true -> incl_ok incl sc m = true ->
+  exists m', from_dict_cls sc (ocls m) (tr text (to_dict cs incl sc m)) = Ok m' /\
+             from_dict_inst sc (new sc (ocls m)) (tr text (to_dict cs incl sc m)) = Ok m' /\
+             obj_eq sc m' m = true /\ enc_obj sc m' = enc_obj sc m.
+Proof. exact both_formsG. Qed.
+Print Assumptions C04_general_rt.
+
+Theorem C04_general_text_rt : forall sc cs incl m,
+  wfx_schema sc = true -> keys_ok cs sc = true -> goodx sc m = true -> incl_ok incl sc m = true ->
+  exists m', json_rt_cls cs incl sc m = Ok m' /\
+             json_rt_inst cs incl sc m (new sc (ocls m)) = Ok m' /\
+             obj_eq sc m' m = true /\ enc_obj sc m' = enc_obj sc m.
+Proof. exact text_rtG. Qed.
+Print Assumptions C04_general_text_rt.
+
+Theorem C04_general_dumps_total : forall sc cs incl m,
+  wfx_schema sc = true -> in_rangex sc m = true -> oneof_ok sc m = true -> (incl = true -> defaults_reach sc m = true) ->
+  dumpsable (to_dict cs incl sc m) = true.
+Proof. exact dumps_total_mainG. Qed.
+Print Assumptions C04_general_dumps_total.
+
+(* all_present is the stronger condition: it implies defaults_reach *)
+Theorem C04_all_present_reach : forall sc m, all_present sc m = true -> defaults_reach sc m = true.
+Proof. exact all_present_reach. Qed.
+Print Assumptions C04_all_present_reach.
+
+(* ---- non-vacuity of the second part ---- *)
+(* include_default_values=True: a non-recursive wf_schema and a value with a present-but-empty plain sub-message, unset
+   scalars / Timestamp (listed as defaults), an unset optional and an unset wrapper (listed as null), a set-but-empty
+   optional sub-message, a repeated and a map field holding an empty message, a selected oneof member that is an empty
+   message (its unselected sibling is left out) *)
+Example C04_incl_hypotheses_satisfiable :
+  wf_schema exi_sc = true /\ keys_ok CAMEL exi_sc = true /\ keys_ok SNAKE exi_sc = true /\
+  good exi_sc exi_m = true /\ all_present exi_sc exi_m = true /\ defaults_reach exi_sc exi_m = true.
+Proof. vm_compute. repeat split; reflexivity. Qed.
+
+Example C04_incl_nonvacuous :
+  match json_rt_inst SNAKE true exi_sc exi_m (new exi_sc 11), to_dict CAMEL true exi_sc exi_m with
+  | Ok m', JObj d => obj_eq exi_sc m' exi_m = true /\ enc_obj exi_sc m' = enc_obj exi_sc exi_m /\
+                     length d = 10%nat /\
+                     match enc_obj exi_sc exi_m with Ok b => (20 <? Zlength b) = true | Err _ => False end
+  | _, _ => False
+  end.
+Proof. vm_compute. repeat split; reflexivity. Qed.
+
+(* defaults_reach without all_present (C04_incl_eq_rt, C04_incl_dumps_total): the dict of the refuted witness is still
+   serialisable, and what from_dict builds from it is the normal form gnorm_obj, == the original *)
+Example C04_incl_dumps_nonvacuous :
+  good exi_sc wit_unset_sub = true /\ defaults_reach exi_sc wit_unset_sub = true /\
+  all_present exi_sc wit_unset_sub = false /\ dumpsable (to_dict CAMEL true exi_sc wit_unset_sub) = true /\
+  json_rt_cls CAMEL true exi_sc wit_unset_sub = Ok (gnorm_obj true exi_sc wit_unset_sub) /\
+  obj_eq exi_sc (gnorm_obj true exi_sc wit_unset_sub) wit_unset_sub = true.
+Proof. vm_compute. repeat split; reflexivity. Qed.
+
+(* repeated wrappers: a schema that is wfx but NOT wf, a value that is goodx but NOT in_range (non-empty repeated BytesValue
+   with an empty element, unset repeated DoubleValue which to_dict lists as []) *)
+Example C04_repwrap_hypotheses_satisfiable :
+  wf_schema exr_sc = false /\ wfx_schema exr_sc = true /\ keys_ok CAMEL exr_sc = true /\ keys_ok SNAKE exr_sc = true /\
+  goodx exr_sc exr_m = true /\ in_range exr_sc exr_m = false /\ all_present exr_sc exr_m = true.
+Proof. vm_compute. repeat split; reflexivity. Qed.
+
+Example C04_repwrap_nonvacuous :
+  match json_rt_inst SNAKE false exr_sc exr_m (new exr_sc 11), from_dict_cls exr_sc 11 (to_dict CAMEL true exr_sc exr_m) with
+  | Ok m', Ok m'' => obj_eq exr_sc m' exr_m = true /\ enc_obj exr_sc m' = enc_obj exr_sc exr_m /\
+                     obj_eq exr_sc m'' exr_m = true /\ enc_obj exr_sc m'' = enc_obj exr_sc exr_m /\
+                     match enc_obj exr_sc exr_m with Ok b => (30 <? Zlength b) = true | Err _ => False end
+  | _, _ => False
   end.
 Proof. vm_compute. repeat split; reflexivity. Qed.
